@@ -8,16 +8,30 @@ import proto
 THEOREMS = ['C08_length', 'C08_pointwise', 'C08_kept_entirely', 'C08_cleared_entirely', 'C08_runLen_const',
             'C08_no_new_true', 'C08_idempotent', 'C08_edges', 'C08_antitone_k', 'C08_monotone_mask',
             'C08_guard', 'C08_small_k']
-RULE = ("every boolean array up to a length bound x every min_n_cycles in {0..n+1} plus half-integers (exhaustive), "
+RULE = ("every boolean array up to a length bound x every min_n_cycles in {0..n+1} plus half-integers (exhaustive), each as a contiguous array and as a strided "
+        "view of a larger buffer (every other element / reversed / matrix column), "
         "then random arrays (several run-length distributions) up to length 2000 and guard cases (empty array, negative k); "
-        "distinct = distinct (array, k); non-trivial = the array contains at least one True")
+        "distinct = distinct (array, k, layout); non-trivial = the array contains at least one True")
 ASSUMPTIONS = ["min_n_cycles is shipped exactly (int or dyadic float)",
                "in-place mutation of the caller's array is recorded but not judged (not part of the statement)"]
 BATCH = 20000
 
-def _impl(m, k):
-    from bycycle.burst.utils import check_min_burst_cycles
+LAYOUTS = ['s2', 'rev', 'col']
+
+def _layout(m, lay):
+    """the same boolean values as a contiguous array ('c') or as a strided view of a larger buffer."""
     arr = np.array(m, dtype=bool)
+    if lay == 's2':
+        buf = np.ones(2 * len(arr) + 1, dtype=bool); buf[::2][:len(arr)] = arr; return buf[::2][:len(arr)]
+    if lay == 'rev':
+        return arr[::-1].copy()[::-1]
+    if lay == 'col':
+        mat = np.ones((len(arr), 3), dtype=bool); mat[:, 1] = arr; return mat[:, 1]
+    return arr
+
+def _impl(m, k, lay='c'):
+    from bycycle.burst.utils import check_min_burst_cycles
+    arr = _layout(m, lay)
     kk = Fraction(k)
     kv = int(kk) if kk.denominator == 1 else float(kk)
     try:
@@ -41,6 +55,7 @@ def generate(ctx):
             m = ''.join(bits)
             for k in ks:
                 cases.append(dict(m=m, k=k))
+                cases.append(dict(m=m, k=k, lay=LAYOUTS[len(cases) % 3]))
     # random long arrays
     rng = ctx.rng
     for i in range(ctx.scale(300, 3000)):
@@ -53,7 +68,7 @@ def generate(ctx):
             while pos < n:
                 ln = int(rng.integers(1, 12)); m[pos:pos + ln] = val; pos += ln; val = not val
         k = rng.choice(['0', '1', '2', '3', '4', '5', '8', '11', '7/2', str(n), str(n + 1)])
-        cases.append(dict(m=proto.enc_bits(m), k=str(k)))
+        cases.append(dict(m=proto.enc_bits(m), k=str(k), lay=str(rng.choice(['c', 'c'] + LAYOUTS))))
     for k in ['-1', '-1/2', '0']:
         cases.append(dict(m='e', k=k)); cases.append(dict(m='0110', k=k))
     return cases
@@ -68,11 +83,11 @@ def evaluate(ctx, cases):
     for i, c in enumerate(cases):
         model, spec = ans[2 * i], ans[2 * i + 1]
         m = proto.dec_bits(c['m'])
-        impl = _impl(m, c['k'])
+        impl = _impl(m, c['k'], c.get('lay', 'c'))
         judge_ok = impl == spec
         corr_ok = impl == model
-        ctx.hist('outcome', impl[0] if impl[0] == 'ok' else impl[1])
-        out.append(Result(c, judge_ok=judge_ok, corr_ok=corr_ok, sig=(c['m'], c['k']),
+        ctx.hist('outcome', impl[0] if impl[0] == 'ok' else impl[1]); ctx.hist('layout', c.get('lay', 'c'))
+        out.append(Result(c, judge_ok=judge_ok, corr_ok=corr_ok, sig=(c['m'], c['k'], c.get('lay', 'c')),
                           nontrivial=('1' in c['m']),
                           info=dict(impl=impl, model=model, spec=spec)))
     return out
